@@ -403,5 +403,35 @@ def run(rd, emit, log, enum_values, ti_default):
     if sa is None:
         log.append('C18: hide tests of SerializeObjectAttrs not recognised (compared only)')
     body += 'Definition f_pm_attrs_hide_in_emit_loop : option bool := %s.\n' % ('None' if sa is None else ('Some true' if sa else 'Some false'))
+    # ---- round 5 (e): check-then-act.  Between `objs = GetFilterTargets(..)` and the end of HandleRequest the handler works on the
+    # pointers it was given: the loop variable is a const reference over objs, is never assigned, and nothing looks an object up by
+    # name again (GetObject / GetByName / GetByNamePair / GetTargetByName / GetObjects).  Some false = recognisably re-resolving.
+    def act_fact(name, fname, act_res):
+        nonlocal body
+        src = strip_comments(rd('lib/remote/' + fname))
+        b_ = handle_body(src)
+        val = None
+        if b_:
+            g = re.search(r'objs\s*=\s*FilterUtility::GetFilterTargets\s*\(\s*qd\s*,\s*params\s*,\s*user\s*\)', b_)
+            if g:
+                rest = b_[g.end():]
+                loop = re.search(r'for\s*\(\s*(const\s+)?ConfigObject::Ptr\s*(&?)\s*(\w+)\s*:\s*objs\s*\)', rest)
+                if loop:
+                    var = loop.group(3)
+                    lookups = re.search(r'\b(?:GetObject|GetByName|GetByNamePair|GetTargetByName|GetObjects|GetObjectByName)\s*(?:<[^>]*>)?\s*\(', rest[loop.end():])
+                    assigned = re.search(r'(?<![\w.>])' + re.escape(var) + r'\s*=(?!=)', rest[loop.end():])
+                    acts = [re.search(r, rest[loop.end():]) for r in act_res]
+                    on_var = all(a_ is not None for a_ in acts)
+                    if lookups or assigned:
+                        val = False
+                    elif loop.group(1) and loop.group(2) and on_var:
+                        val = True
+        if val is None:
+            log.append('C18: act-on-authorised-pointer structure of %s not recognised (compared only)' % name)
+        body += 'Definition f_pm_%s_acts_on_pointer : option bool := %s.\n' % (name, 'None' if val is None else ('Some true' if val else 'Some false'))
+    act_fact('query', 'objectqueryhandler.cpp', [r'SerializeObjectAttrs\s*\(\s*obj\s*,'])
+    act_fact('modify', 'modifyobjecthandler.cpp', [r'\bobj\s*->\s*ModifyAttribute\s*\(', r'\bobj\s*->\s*RestoreAttribute\s*\('])
+    act_fact('delete', 'deleteobjecthandler.cpp', [r'ConfigObjectUtility::DeleteObject\s*\(\s*obj\s*,'])
+    act_fact('actions', 'actionshandler.cpp', [r'->\s*Invoke\s*\(\s*obj\s*,'])
     body += 'Definition f_pm_join_cache_text : string := "%s"%%string.\n' % ('%s; %s' % (ck_text, tk_text)).replace('"', '')
     emit('Facts_c18.v', body)
